@@ -8,6 +8,7 @@ CONSTANTS
   Fmts = {"bc", "idx_bc"}
   NFiles = {1}
   Lazy = {"none", "this"}
+  ProbeMax = 5
   Touches = {"lookup"}
   Variant = "design"
 CONSTRAINT Emit
